@@ -133,6 +133,15 @@ theorem derive_isolated_attrs (σ : Store) (h : TL.Handler) (as : List Attr) :
       simp only [TL.withAttrs, hne, Bool.false_eq_true, if_false]
       exact ⟨this.2, this.1⟩
 
+/-- `derive_isolated`, in one line: whatever handler `h` is derived from and however (`WithGroup` or `WithAttrs`), every
+    handler `h'` that existed before (the parent `h` itself, an ancestor, a sibling) prints every record exactly as it
+    did before -/
+theorem derive_isolated (σ : Store) (h h' : TL.Handler) (name : Bytes) (as : List Attr) (r : Record)
+    (hv : σ.valid h'.list) :
+    TL.render (TL.withGroup σ h name).1 h' r = TL.render σ h' r ∧
+    TL.render (TL.withAttrs σ h as).1 h' r = TL.render σ h' r :=
+  ⟨((derive_isolated_group σ h name).1 h' r hv).2, ((derive_isolated_attrs σ h as).1 h' r hv).2⟩
+
 /-- siblings: a second derivation from the same parent (here `WithAttrs` twice) does not change what the first child
     prints — the case a shared backing array would break -/
 theorem derive_isolated_sibling (σ : Store) (h : TL.Handler) (as bs : List Attr) (r : Record) (ha : as ≠ [])
